@@ -101,6 +101,23 @@ func Generated(ms *move.Store, b *board.Board) []move.Move {
 	return res
 }
 
+// GeneratedHalves returns the moves of the noisy and of the quiet generator separately.
+func GeneratedHalves(ms *move.Store, b *board.Board) (noisy, quiet []move.Move) {
+	ms.Push()
+	movegen.GenNoisy(ms, b)
+	for _, w := range ms.Frame() {
+		noisy = append(noisy, w.Move)
+	}
+	ms.Pop()
+	ms.Push()
+	movegen.GenNotNoisy(ms, b)
+	for _, w := range ms.Frame() {
+		quiet = append(quiet, w.Move)
+	}
+	ms.Pop()
+	return
+}
+
 // Playable returns the generated moves that do not leave the mover's king
 // attacked (make / InCheck / undo), in emission order, duplicates preserved.
 func Playable(ms *move.Store, b *board.Board) []move.Move {
